@@ -69,6 +69,8 @@ for cls, qn in (('Socket', 'socket.Socket.poll'), ('AsyncSocket', 'async_socket.
 FLAGS_SAME = ('self.closing == old(self.closing) and self.closed == old(self.closed) and '
               'self.connected == old(self.connected) and self.upgrading == old(self.upgrading) '
               'and self.upgraded == old(self.upgraded)')
+QUIET = ('events == old(events) and spawned == old(spawned) and '
+         'self.queue.accepted == old(self.queue.accepted) and ' + FLAGS_SAME)
 SOCK_MOD = ['self.closing', 'self.closed', 'Queue.items', 'Queue.unf', 'Queue.taken',
             'Queue.accepted', 'Queue.put_none', 'Queue.taken_none', 'ghost.events', 'ghost.now',
             'ghost.spawned']
@@ -79,7 +81,7 @@ for cls, mod in (('Socket', 'socket'), ('AsyncSocket', 'async_socket')):
     c.param('self', Ref(cls))
     c.returns(BOOL)
     c.requires(SOCK_WF, 'socket-wf')
-    c.raises('SocketIsClosedError', 'self.closed', ensures=[('unchanged', FLAGS_SAME)])
+    c.raises('SocketIsClosedError', 'self.closed', ensures=[('unchanged', QUIET)])
     c.ensures('timeout-iff-deadline-passed', 'result == (not old(ping_expired(self, now)))',
               props=['C07'])
     c.ensures('alive-unchanged', 'implies(result, ' + FLAGS_SAME + ' and events == old(events) '
@@ -103,7 +105,7 @@ for cls, mod in (('Socket', 'socket'), ('AsyncSocket', 'async_socket')):
     c.param('self', Ref(cls)).param('pkt', Ref('Packet'))
     c.requires(SOCK_WF, 'socket-wf')
     c.requires('0 <= pkt.packet_type and pkt.packet_type <= 6', 'packet-type')
-    c.raises('SocketIsClosedError', 'self.closed', ensures=[('unchanged', FLAGS_SAME)])
+    c.raises('SocketIsClosedError', 'self.closed', ensures=[('unchanged', QUIET)])
     c.ensures('enqueued-once', 'implies(not old(ping_expired(self, now)), '
               'self.queue.accepted == old(self.queue.accepted) + [pkt] and '
               'self.queue.items == old(self.queue.items) + [pkt] and ' + FLAGS_SAME +
@@ -166,7 +168,7 @@ for cls, mod in (('Socket', 'socket'), ('AsyncSocket', 'async_socket')):
 
 # ------------------------------------------------------------------------------ _trigger_event
 HANDLERS_ARGS = [Ty('tup', STR, ANY), Ty('tup', STR, STR), Ty('tup', STR, ENV)]
-for cls, mod in (('Server', 'server'),):
+for cls, mod in (('Server', 'server'), ('AsyncServer', 'async_server')):
     c = REG.contract('%s.%s._trigger_event' % (mod, cls), props=['C04', 'C05', 'C18'])
     c.param('self', Ref(cls)).param('event', STR).param('args', HANDLERS_ARGS)
     c.param('kwargs', Ty('rec', ('run_async', BOOL)))
@@ -175,7 +177,8 @@ for cls, mod in (('Server', 'server'),):
               'events == old(events) and spawned == old(spawned))')
     c.ensures('background-spawns-one-task', "implies(event in self.handlers and "
               "kwargs['run_async'], events == old(events) and "
-              "spawned == old(spawned) + [mk_task('run_handler', 0)])", props=['C04'])
+              "one_task_spawned(spawned, old(spawned)) and "
+              "is_handler_task(task_name(spawned[len(old(spawned))])))", props=['C04'])
     c.ensures('sync-invokes-once', "implies(event in self.handlers and not kwargs['run_async'] "
               "and handler_accepts(self.handlers[event], 2), spawned == old(spawned) and "
               "last_event_is(events, old(events), self.handlers[event], 2, args[0], args[1]))",
@@ -190,3 +193,49 @@ for cls, mod in (('Server', 'server'),):
               "(event == 'disconnect' and handler_accepts(self.handlers[event], 1)), "
               "events == old(events))")
     c.modifies('ghost.events', 'ghost.spawned', 'ghost.now')
+
+# -------------------------------------------------------------------------------------- receive
+QUIET = ('events == old(events) and spawned == old(spawned) and '
+         'self.queue.accepted == old(self.queue.accepted) and ' + FLAGS_SAME)
+for cls, mod in (('Socket', 'socket'), ('AsyncSocket', 'async_socket')):
+    c = REG.contract('%s.%s.receive' % (mod, cls), props=['C04', 'C05', 'C07', 'C18'])
+    c.param('self', Ref(cls)).param('pkt', Ref('Packet'))
+    c.requires(SOCK_WF, 'socket-wf')
+    c.requires('0 <= pkt.packet_type and pkt.packet_type <= 9', 'decoded-type-digit')
+    c.raises('UnknownPacketError', 'pkt.packet_type not in (1, 3, 4, 5)', label='other-types-refused',
+             ensures=[('nothing-happens', QUIET)], props=['C04'])
+    c.may_raise('SocketIsClosedError', 'pkt.packet_type == 5 and self.closed',
+                ensures=[('nothing-happens', QUIET)])
+    c.ensures('pong-rearms-heartbeat', "implies(pkt.packet_type == 3, "
+              "spawned == old(spawned) + [mk_task('_send_ping', self)] and events == old(events) "
+              "and self.queue.accepted == old(self.queue.accepted) and " + FLAGS_SAME + ")",
+              props=['C04', 'C07'])
+    c.ensures('message-one-event-sync', "implies(pkt.packet_type == 4 and "
+              "'message' in self.server.handlers and not self.server.async_handlers and "
+              "handler_accepts(self.server.handlers['message'], 2), "
+              "last_event_is(events, old(events), self.server.handlers['message'], 2, self.sid, "
+              "pkt.data) and spawned == old(spawned))", props=['C04'])
+    c.ensures('message-one-task-async', "implies(pkt.packet_type == 4 and "
+              "'message' in self.server.handlers and self.server.async_handlers, "
+              "events == old(events) and one_task_spawned(spawned, old(spawned)) and "
+              "is_handler_task(task_name(spawned[len(old(spawned))])))", props=['C04'])
+    c.ensures('message-leaves-session-alone', "implies(pkt.packet_type == 4, " + FLAGS_SAME +
+              " and self.queue.accepted == old(self.queue.accepted))", props=['C04', 'C05'])
+    c.ensures('message-payload-unchanged', 'pkt.data == old(pkt.data)', props=['C04'])
+    c.ensures('upgrade-answered-with-noop', "implies(pkt.packet_type == 5 and "
+              "not old(ping_expired(self, now)), len(self.queue.accepted) == "
+              "len(old(self.queue.accepted)) + 1 and "
+              "self.queue.accepted[len(old(self.queue.accepted))].packet_type == 6 and "
+              "self.queue.accepted[0:len(old(self.queue.accepted))] == old(self.queue.accepted) "
+              "and events == old(events))", props=['C04'])
+    c.ensures('close-ends-session', "implies(pkt.packet_type == 1 and "
+              "not (old(self.closed) or old(self.closing)), self.closing and self.closed and "
+              "self.queue.accepted == old(self.queue.accepted) and "
+              "implies('disconnect' in self.server.handlers, one_disconnect(events, old(events), "
+              "self.server.handlers['disconnect'], self.sid, 'client disconnect')))",
+              props=['C04', 'C05'])
+    c.ensures('close-after-close-is-noop', "implies(pkt.packet_type == 1 and "
+              "(old(self.closed) or old(self.closing)), " + QUIET + ")", props=['C05'])
+    c.ensures('queue-wf', 'self.queue.unf >= len(self.queue.items)')
+    c.ensures('taken-unchanged', 'self.queue.taken == old(self.queue.taken)')
+    c.modifies(*SOCK_MOD)
